@@ -1892,6 +1892,7 @@ class unyt_array(np.ndarray):
             if not (isinstance(ret_class, type) and issubclass(ret_class, unyt_array)):
                 # neither input is a unyt_array: we were dispatched to through out=
                 ret_class = type(self)
+            unitless = (u0 is None, u1 is None)
             if u0 is None:
                 u0 = Unit(registry=getattr(u1, "registry", None))
             if u1 is None and ufunc is not power:
@@ -1951,12 +1952,10 @@ class unyt_array(np.ndarray):
                     # binary operation would need to scan over all the
                     # elements of both arrays to check for arrays filled
                     # with zeros
-                    if not isinstance(i0, unyt_array) or not isinstance(i1, unyt_array):
-                        any_nonzero = [np.count_nonzero(i0), np.count_nonzero(i1)]
-                        if any_nonzero[0] == 0:
-                            u0 = u1
-                        elif any_nonzero[1] == 0:
-                            u1 = u0
+                    if unitless[0] and np.count_nonzero(i0) == 0:
+                        u0 = u1
+                    elif unitless[1] and np.count_nonzero(i1) == 0:
+                        u1 = u0
                     if not u0.same_dimensions_as(u1):
                         if unit_operator is _comparison_unit:
                             # we allow comparisons between data with
